@@ -103,3 +103,20 @@ Theorem C07_source_worse_accepted_iff :
 Proof. exact source_worse_accepted_iff. Qed.
 Print Assumptions C07_source_worse_accepted_iff.
 
+
+Theorem S_mc_step_is_source :
+  forall (NN : Num) (fexp : carrier NN -> carrier NN) (score : N -> list (carrier NN) -> option
+    (carrier NN)) (c : cfg NN) (st : ost NN) (d : draw NN), mc_step NN fexp score c st d = match
+    gen_mc_step NN fexp score c {| w_params := params NN st; w_handles := handles NN st; w_calls
+    := calls NN st |} (score_cur NN st) (kt NN st) (ratio NN st) (loop_rej NN st) d with | Some
+    (w, sc, rej) => {| params := w_params NN w; handles := w_handles NN w; score_cur := sc; kt
+    := kt NN st; ratio := ratio NN st; conv_count := conv_count NN st; loop_rej := rej;
+    score_start := score_start NN st; loops_done := loops_done NN st; j := N.succ (j NN st);
+    calls := w_calls NN w; fin := false; converged := false; bad_index := false |} | None => {|
+    params := params NN st; handles := handles NN st; score_cur := score_cur NN st; kt := kt NN
+    st; ratio := ratio NN st; conv_count := conv_count NN st; loop_rej := loop_rej NN st;
+    score_start := score_start NN st; loops_done := loops_done NN st; j := j NN st; calls :=
+    calls NN st; fin := true; converged := false; bad_index := true |} end.
+Proof. exact mc_step_is_source. Qed.
+Print Assumptions S_mc_step_is_source.
+
